@@ -1,7 +1,144 @@
 (** C07 — arithmetic evaluates as bash's wrapping 64-bit C-style integer arithmetic.
     Only pinned statements, [exact], and [Print Assumptions]. *)
-From BV Require Import Base.Prelude Arith.Wrap64.
+From BV Require Import Base.Prelude Arith.Wrap64 Arith.Ast Arith.Lit Arith.PegPrec Arith.Parse Arith.Eval
+  Arith.EvalProofs Arith.ParseProofs gen.C07ArithTable.
 
-Theorem c07_add_mod : forall a b, wadd a b mod M64 = (a + b) mod M64.
-Proof. exact wadd_mod. Qed.
+(** *** the parser table regenerated from brush-parser/src/arithmetic.rs is the C / bash operator
+    table: same levels in the same order, same associativity, same operator texts, same AST
+    constructors (re-checked by computation whenever the Rust source changes) *)
+Theorem c07_table_matches_c : levels_eqb (levels_of arith_table) c_levels = true.
+Proof. exact table_matches_c. Qed.
+Print Assumptions c07_table_matches_c.
+
+Theorem c07_table_well_typed : forallb (forallb rule_typed) arith_table = true.
+Proof. exact table_well_typed. Qed.
+Print Assumptions c07_table_well_typed.
+
+Theorem c07_table_markers_ok : forallb (forallb rule_markers_ok) arith_table = true.
+Proof. exact table_markers_ok. Qed.
+Print Assumptions c07_table_markers_ok.
+
+(** *** wrapping arithmetic: + - * and unary minus are arithmetic modulo 2^64 *)
+Theorem c07_add_mod : forall a b, wadd a b mod M64 = (a + b) mod M64 /\ inr (wadd a b).
+Proof. exact (fun a b => conj (wadd_mod a b) (wadd_range a b)). Qed.
 Print Assumptions c07_add_mod.
+Theorem c07_sub_mod : forall a b, wsub a b mod M64 = (a - b) mod M64 /\ inr (wsub a b).
+Proof. exact (fun a b => conj (wsub_mod a b) (wsub_range a b)). Qed.
+Print Assumptions c07_sub_mod.
+Theorem c07_mul_mod : forall a b, wmul a b mod M64 = (a * b) mod M64 /\ inr (wmul a b).
+Proof. exact (fun a b => conj (wmul_mod a b) (wmul_range a b)). Qed.
+Print Assumptions c07_mul_mod.
+Theorem c07_wrap_unique : forall z r, inr r -> r mod M64 = z mod M64 -> wrap64 z = r.
+Proof. exact wrap64_unique. Qed.
+Print Assumptions c07_wrap_unique.
+
+(** the square-and-multiply loop of [wrapping_pow_u64] computes [base^e] modulo 2^64 and ends
+    within 64 iterations for every u64 exponent *)
+Theorem c07_pow_loop_correct : forall base e, 0 <= e < M64 -> wpow base e = Some (wrap64 (base ^ e)).
+Proof. exact wpow_correct. Qed.
+Print Assumptions c07_pow_loop_correct.
+
+(** [<<] and [>>] shift by the right operand modulo 64 ([right as u32], then the 6-bit mask) *)
+Theorem c07_shift_spec : forall a r,
+  wshl a (as_u32 r) = wrap64 (a * 2 ^ (r mod 64)) /\ wshr a (as_u32 r) = a / 2 ^ (r mod 64).
+Proof. exact (fun a r => conj (wshl_spec a r) (wshr_spec a r)). Qed.
+Print Assumptions c07_shift_spec.
+
+(** C division: [a = q*b + r], [|r| < |b|], the remainder has the sign of the dividend;
+    [MIN / -1 = MIN], [MIN % -1 = 0]; a zero divisor is the only case without a result *)
+Theorem c07_div_rem_c : forall a b q r, inr a -> inr b -> wdiv a b = Some q -> wrem a b = Some r ->
+  b <> 0 /\ inr q /\ inr r /\
+  (~ (a = - M63 /\ b = -1) -> a = q * b + r) /\
+  Z.abs r < Z.abs b /\ (r = 0 \/ Z.sgn r = Z.sgn a) /\
+  (a = - M63 -> b = -1 -> q = - M63 /\ r = 0).
+Proof. exact div_rem_c. Qed.
+Print Assumptions c07_div_rem_c.
+
+(** *** the operator table of [apply_binary_op], in mathematical terms *)
+Theorem c07_arith_spec : forall o l r v, inr l -> inr r -> arith o l r = AOk v ->
+  match o with
+  | Add => v = wrap64 (l + r)
+  | Sub => v = wrap64 (l - r)
+  | Mul => v = wrap64 (l * r)
+  | Div => r <> 0 /\ v = wrap64 (Z.quot l r)
+  | Mod => r <> 0 /\ v = Z.rem l r
+  | Pow => 0 <= r /\ v = wrap64 (l ^ r)
+  | Shl => v = wrap64 (l * 2 ^ (r mod 64))
+  | Shr => v = l / 2 ^ (r mod 64)
+  | Lt => v = b2z (l <? r) | Le => v = b2z (l <=? r) | Gt => v = b2z (l >? r) | Ge => v = b2z (l >=? r)
+  | Eq => v = b2z (l =? r) | Ne => v = b2z (negb (l =? r))
+  | BAnd => v = Z.land l r | BOr => v = Z.lor l r | BXor => v = Z.lxor l r
+  | Comma => v = r
+  | LAnd | LOr => False
+  end.
+Proof. exact arith_spec. Qed.
+Print Assumptions c07_arith_spec.
+
+(** division by zero and negative exponents are reported errors, exactly then *)
+Theorem c07_div0_iff : forall o l r, arith o l r = AErr EDivZero <-> (o = Div \/ o = Mod) /\ r = 0.
+Proof. exact div0_iff. Qed.
+Print Assumptions c07_div0_iff.
+Theorem c07_negexp_iff : forall o l r, arith o l r = AErr ENegExp <-> o = Pow /\ r < 0.
+Proof. exact negexp_iff. Qed.
+Print Assumptions c07_negexp_iff.
+
+(** *** the evaluator, for every parser of variable contents, environment, depth and fuel *)
+(** never reaches an operation that panics in Rust (zero divisor, [unreachable!], [depth + 1]) *)
+Theorem c07_eval_no_panic : forall parse nounset max_depth, 0 <= max_depth < U32_MAX ->
+  forall fuel e depth en, 0 <= depth <= max_depth -> eval parse nounset max_depth fuel e depth en <> RPanic.
+Proof. exact eval_no_panic. Qed.
+Print Assumptions c07_eval_no_panic.
+
+(** short circuit: the skipped operand has no effect whatever it is *)
+Theorem c07_and_short_circuit : forall parse nounset max_depth f a b depth en en1,
+  eval parse nounset max_depth f a depth en = ROk 0 en1 ->
+  eval parse nounset max_depth (S f) (EBin LAnd a b) depth en = ROk 0 en1.
+Proof. exact and_short_circuit. Qed.
+Print Assumptions c07_and_short_circuit.
+Theorem c07_or_short_circuit : forall parse nounset max_depth f a b depth en en1 v,
+  eval parse nounset max_depth f a depth en = ROk v en1 -> v <> 0 ->
+  eval parse nounset max_depth (S f) (EBin LOr a b) depth en = ROk 1 en1.
+Proof. exact or_short_circuit. Qed.
+Print Assumptions c07_or_short_circuit.
+Theorem c07_cond_one_branch : forall parse nounset max_depth f c t e depth en en1 v,
+  eval parse nounset max_depth f c depth en = ROk v en1 ->
+  eval parse nounset max_depth (S f) (ECond c t e) depth en =
+    if v =? 0 then eval parse nounset max_depth f e depth en1 else eval parse nounset max_depth f t depth en1.
+Proof. exact cond_one_branch. Qed.
+Print Assumptions c07_cond_one_branch.
+
+(** assignment operators leave the variable with the stated value *)
+Theorem c07_assign_stores : forall parse nounset max_depth f x rhs depth en v en',
+  eval parse nounset max_depth (S f) (EAssign x None rhs) depth en = ROk v en' ->
+  exists en1, eval parse nounset max_depth f rhs depth en = ROk v en1 /\ en' = update x (show_Z v) en1 /\
+              lookup x en' = Some (show_Z v).
+Proof. exact assign_stores. Qed.
+Print Assumptions c07_assign_stores.
+Theorem c07_binassign_stores : forall parse nounset max_depth f o x rhs depth en v en',
+  o <> LAnd -> o <> LOr ->
+  eval parse nounset max_depth (S f) (EBinAssign o x None rhs) depth en = ROk v en' ->
+  exists lv en1 rv en2,
+    eval parse nounset max_depth f (ERef x None) depth en = ROk lv en1 /\
+    eval parse nounset max_depth f rhs depth en1 = ROk rv en2 /\
+    arith o lv rv = AOk v /\ en' = update x (show_Z v) en2 /\ lookup x en' = Some (show_Z v).
+Proof. exact binassign_stores. Qed.
+Print Assumptions c07_binassign_stores.
+Theorem c07_incr_stores : forall parse nounset max_depth f o x depth en v en',
+  eval parse nounset max_depth (S f) (EIncr o x None) depth en = ROk v en' ->
+  exists old en1,
+    deref parse nounset max_depth (eval parse nounset max_depth f) x None depth en = ROk old en1 /\
+    let nv := match o with PreInc | PostInc => wadd old 1 | PreDec | PostDec => wsub old 1 end in
+    en' = update x (show_Z nv) en1 /\ lookup x en' = Some (show_Z nv) /\
+    v = match o with PreInc | PreDec => nv | PostInc | PostDec => old end.
+Proof. exact incr_stores. Qed.
+Print Assumptions c07_incr_stores.
+
+(** *** parser and evaluator together: whatever brush's parser accepts evaluates to an i64 *)
+Theorem c07_parse_lits_in_range : forall s e, arith_parse s = Some e -> lits_inr e.
+Proof. exact parse_lits_in_range. Qed.
+Print Assumptions c07_parse_lits_in_range.
+Theorem c07_eval_in_range : forall nounset fuel s e depth en v en',
+  arith_parse s = Some e ->
+  eval arith_parse nounset (max_deref_depth arith_lex) fuel e depth en = ROk v en' -> inr v.
+Proof. exact eval_in_range_parsed. Qed.
+Print Assumptions c07_eval_in_range.
